@@ -219,8 +219,19 @@ def main(inp, outp):
             checks += [("apocenter", inf.ra, q["ra"] * L0), ("period", inf.period.total_seconds(), TWO_PI / (math.sqrt(abs(q["n2"])) / T0))]
         else:
             checks += [("vinf", inf.vinf, math.sqrt(1 / abs(q["a"])) * V0), ("dinf", inf.dinf, abs(q["dinf"]) * L0)]
+        # speeds at the apsides (vis-viva at rp, ra), apsis altitudes above the frame's body, light time to the centre, and the two
+        # components of the flight-path angle: v cos(fpa) = h / r
+        rp_, e_ = q["rp"] * L0, q["e"]
+        body_r = inf.orb.frame.center.body.r
+        h_ = float(np.linalg.norm(np.cross(np.asarray(exp["cartesian"][:3], float), np.asarray(exp["cartesian"][3:], float))))
+        checks += [("pericenter-speed", inf.vp, math.sqrt(MU * (1 + e_) / rp_)), ("pericenter-altitude", inf.zp + body_r, rp_),
+                   ("light-delay", inf.delay.total_seconds() + 1.0, q["r"] * L0 / 299792458.0 + 1.0),
+                   ("cos-fpa", inf.cos_fpa, h_ / (q["r"] * L0 * math.sqrt(q["v2"]) * V0)), ("fpa-norm", inf.cos_fpa ** 2 + inf.sin_fpa ** 2, 1.0)]
+        if not hyp:
+            ra_ = q["ra"] * L0
+            checks += [("apocenter-speed", inf.va, math.sqrt(MU * (1 - e_) / ra_)), ("apocenter-altitude", inf.za + body_r, ra_)]
         for nm, got, want in checks:
-            tol = 2e-6 if nm == "period" else 1e-9
+            tol = 2e-6 if nm in ("period", "light-delay") else 1e-9
             clause("derived orbit quantities obey their defining relations", abs(got - want) <= tol * abs(want), f"infos/{nm.split()[0]}",
                    f"{nm}: {got} expected {want}", data)
         try:
